@@ -70,7 +70,7 @@ def evaluate(spec, wd):
 def shard(shard, nshards, n, tier, seed):
     res = ShardResult()
     with scratch(f"vf-c05-{shard}-") as wd:
-        drive(strategies.form_specs(PROFILE), lambda s: evaluate(s, wd), n, (PROP, seed, shard), res, shrink_calls=40)
+        drive(strategies.forms(PROFILE, grammar=5), lambda s: evaluate(s, wd), n, (PROP, seed, shard), res, shrink_calls=40)
     return res
 
 
